@@ -128,6 +128,36 @@ class Check(HCheck):
                             extra = list((collections.Counter(acc) - refc).elements())
                             ctx.fail("union-differs", "paging webentity %r (prefixes %s, internal=%s outbound=%s) by %r sources: missing %s, repeated/extra %s" % (wid, _pl(order), inte, outb, k, _sh(missing), _sh(extra)))
                             return
+            # two paginations of the same webentity with different switches, advanced in turns
+            order = list(pl)
+            refs, toks, accs, done = {}, {}, {}, {}
+            for sw in SW:
+                try:
+                    refs[sw] = collections.Counter(tuple(x) for x in t.get_webentity_pagelinks(wid, order, include_inbound=False, include_internal=sw[0], include_outbound=sw[1]))
+                except Exception:
+                    refs = None
+                    break
+                toks[sw], accs[sw], done[sw] = None, [], False
+            rounds = 0
+            while refs is not None and not all(done.values()) and rounds < 40:
+                rounds += 1
+                for sw in SW:
+                    if done[sw]:
+                        continue
+                    try:
+                        r = t.paginate_webentity_pagelinks(wid, order, include_internal=sw[0], include_outbound=sw[1], source_page_count=1, pagination_token=toks[sw])
+                    except Exception as e:
+                        ctx.fail("token-not-resumable", "two paginations of webentity %r advanced in turns: the one with internal=%s outbound=%s failed on token %r: %s: %s" % (wid, sw[0], sw[1], toks[sw], type(e).__name__, e))
+                        return
+                    accs[sw] += [tuple(x) for x in r["pagelinks"]]
+                    done[sw] = r["done"]
+                    toks[sw] = r.get("token")
+            if refs is not None:
+                ctx.count("alternating_chains")
+                for sw in SW:
+                    if collections.Counter(accs[sw]) != refs[sw]:
+                        ctx.fail("union-differs-alternating", "two paginations of webentity %r advanced in turns: the one with internal=%s outbound=%s returned %s, expected %s" % (wid, sw[0], sw[1], _sh(sorted(accs[sw])), _sh(sorted(refs[sw].elements()))))
+                        return
             obs.append((wid, len(g.members.get(wid, []))))
         ctx.obs(obs)
 
